@@ -26,7 +26,16 @@ def canon_text(v):
     if isinstance(v, float):
         if v.is_integer():
             return str(int(v))
-        return repr(v)
+        r = repr(v)
+        if "e" in r:
+            # the shortest digits, spelt as a decimal: a text format has no exponent notation (and XPath cannot read one)
+            sign, r = ("-", r[1:]) if r.startswith("-") else ("", r)
+            mant, exp = r.split("e")
+            digits = mant.replace(".", "")
+            point = len(mant.split(".")[0]) + int(exp)
+            r = sign + ("0." + "0" * (-point) + digits if point <= 0 else digits[:point] + "." + digits[point:])
+            r = r.rstrip("0") if "." in r else r
+        return r
     if isinstance(v, (datetime.datetime, datetime.time)):
         return str(v)
     s = str(v).replace("\u00a0", " ").strip()
